@@ -335,19 +335,30 @@ theorem tryFromLoop_regular (H : Http) (R : List FieldLine) (hR : ∀ f ∈ R, R
 
 theorem parse_method (H : Http) (m : Bytes) (h : validMethod m = true) :
     Field.parse H nMethod m = .ok (.method m) := by
-  simp [Field.parse, nMethod, nScheme, nAuthority, nPath, isPseudoName, colon, h]
+  simp [Field.parse, pseudoValueSyntax, nMethod, nScheme, nAuthority, nPath, isPseudoName, colon, h]
 
-theorem parse_scheme (H : Http) (s : Bytes) (h : H.parseScheme s = some s) :
+/-- a pseudo-header value that passes `pseudo_value_syntax` (D-12g) goes on to the delegation -/
+theorem syntax_passes {n v : Bytes} (hy : pseudoValueSyntax n v = true) :
+    (H3.Gen.Headers.pseudoSyntaxChecked && !pseudoValueSyntax n v) = false := by
+  rw [hy]; simp
+
+theorem parse_scheme (H : Http) (s : Bytes) (h : H.parseScheme s = some s) (hy : schemeSyntax s = true) :
     Field.parse H nScheme s = .ok (.scheme s) := by
-  simp [Field.parse, nScheme, isPseudoName, colon, tryValue, h]
+  unfold Field.parse
+  rw [syntax_passes (by simpa [pseudoValueSyntax] using hy)]
+  simp [nScheme, isPseudoName, colon, tryValue, h]
 
-theorem parse_authority (H : Http) (a : Bytes) (h : H.parseAuthority a = some a) :
+theorem parse_authority (H : Http) (a : Bytes) (h : H.parseAuthority a = some a) (hy : authoritySyntax a = true) :
     Field.parse H nAuthority a = .ok (.authority a) := by
-  simp [Field.parse, nScheme, nAuthority, isPseudoName, colon, tryValue, h]
+  unfold Field.parse
+  rw [syntax_passes (by simpa [pseudoValueSyntax, nScheme, nAuthority] using hy)]
+  simp [nScheme, nAuthority, isPseudoName, colon, tryValue, h]
 
-theorem parse_path (H : Http) (p : Bytes) (h : H.parsePath p = some p) :
+theorem parse_path (H : Http) (p : Bytes) (h : H.parsePath p = some p) (hy : pathSyntax p = true) :
     Field.parse H nPath p = .ok (.path p) := by
-  simp [Field.parse, nScheme, nAuthority, nPath, isPseudoName, colon, tryValue, h]
+  unfold Field.parse
+  rw [syntax_passes (by simpa [pseudoValueSyntax, nScheme, nAuthority, nPath] using hy)]
+  simp [nScheme, nAuthority, nPath, isPseudoName, colon, tryValue, h]
 
 theorem status_digits (st : Nat) (h1 : 100 ≤ st) (h2 : st ≤ 999) :
     validStatus (statusDigits st) = true ∧ statusVal (statusDigits st) = st := by
@@ -357,15 +368,16 @@ theorem status_digits (st : Nat) (h1 : 100 ≤ st) (h2 : st ≤ 999) :
 theorem parse_status (H : Http) (st : Nat) (h1 : 100 ≤ st) (h2 : st ≤ 999) :
     Field.parse H nStatus (statusDigits st) = .ok (.status st) := by
   obtain ⟨a, b⟩ := status_digits st h1 h2
-  simp [Field.parse, nScheme, nAuthority, nPath, nMethod, nStatus, isPseudoName, colon, a, b]
+  simp [Field.parse, pseudoValueSyntax, nScheme, nAuthority, nPath, nMethod, nStatus, isPseudoName, colon, a, b]
 
 theorem parse_protocol (H : Http) (p : Bytes) (h : parseProtocol p = some p) :
     Field.parse H nProtocol p = .ok (.protocol p) := by
-  simp [Field.parse, nScheme, nAuthority, nPath, nMethod, nStatus, nProtocol, isPseudoName, colon,
+  simp [Field.parse, pseudoValueSyntax, nScheme, nAuthority, nPath, nMethod, nStatus, nProtocol, isPseudoName, colon,
     tryValue, h]
 
 /-- the pseudo-header part of a sent `Header` is parsed back to itself: every value is one its
-    parser accepts and prints unchanged -/
+    parser accepts and prints unchanged — and (D-12g fix) `:scheme`, `:authority`, `:path` pass the
+    receiver's own syntax check (`pseudo_value_syntax`) -/
 structure PseudoBack (H : Http) (p : Pseudo) : Prop where
   method : ∀ m, p.method = some m → validMethod m = true
   scheme : ∀ s, p.scheme = some s → H.parseScheme s = some s
@@ -373,6 +385,9 @@ structure PseudoBack (H : Http) (p : Pseudo) : Prop where
   path : ∀ x, p.path = some x → H.parsePath x = some x
   status : ∀ st, p.status = some st → 100 ≤ st ∧ st ≤ 999
   protocol : ∀ x, p.protocol = some x → parseProtocol x = some x
+  schemeSyntax : ∀ s, p.scheme = some s → schemeSyntax s = true
+  authoritySyntax : ∀ a, p.authority = some a → authoritySyntax a = true
+  pathSyntax : ∀ x, p.path = some x → pathSyntax x = true
 
 theorem loop_optField (H : Http) (h : Header) (n : Bytes) (o : Option Bytes) (R : List FieldLine)
     (f : Bytes → Field) (hnh : ∀ (h' : Header) v, h'.full (f v) = false)
@@ -393,10 +408,10 @@ theorem tryFromLoop_pseudo (H : Http) (p : Pseudo) (hp : PseudoBack H p) (R : Li
   obtain ⟨m, s, a, pa, st, pr, len⟩ := p
   simp only [pseudoList, List.append_assoc]
   rw [loop_optField H _ nMethod m _ .method (fun _ _ => rfl) (fun v hv => parse_method H v (hp.method v hv)),
-    loop_optField H _ nScheme s _ .scheme (fun _ _ => rfl) (fun v hv => parse_scheme H v (hp.scheme v hv)),
+    loop_optField H _ nScheme s _ .scheme (fun _ _ => rfl) (fun v hv => parse_scheme H v (hp.scheme v hv) (hp.schemeSyntax v hv)),
     loop_optField H _ nAuthority a _ .authority (fun _ _ => rfl)
-      (fun v hv => parse_authority H v (hp.authority v hv)),
-    loop_optField H _ nPath pa _ .path (fun _ _ => rfl) (fun v hv => parse_path H v (hp.path v hv)),
+      (fun v hv => parse_authority H v (hp.authority v hv) (hp.authoritySyntax v hv)),
+    loop_optField H _ nPath pa _ .path (fun _ _ => rfl) (fun v hv => parse_path H v (hp.path v hv) (hp.pathSyntax v hv)),
     loop_optField H _ nStatus (st.map statusDigits) _ (fun v => .status (statusVal v)) (fun _ _ => rfl) ?_,
     loop_optField H _ nProtocol pr _ .protocol (fun _ _ => rfl)
       (fun v hv => parse_protocol H v (hp.protocol v hv))]
@@ -507,7 +522,7 @@ theorem recvResponse_sent (H : Http) (status : Nat) (l : List FieldLine) (h1 : 1
     recvResponse H (Header.response status (mapOf l)).wireFields = .ok (status, mapOf l) := by
   unfold recvResponse Header.response at *
   have hp : PseudoBack H { status := some status, len := 1 } :=
-    ⟨by simp, by simp, by simp, by simp, by intro st hst; cases hst; exact ⟨h1, h2⟩, by simp⟩
+    ⟨by simp, by simp, by simp, by simp, by intro st hst; cases hst; exact ⟨h1, h2⟩, by simp, by simp, by simp, by simp⟩
   rw [tryFrom_wireFields H _ l hp hl hcap]
   -- a response h3 builds carries `:status` and no request pseudo-header field (D-12f: the receiver
   -- refuses one that does): `Pseudo.hasRequestField` of it evaluates to `false`
@@ -517,7 +532,7 @@ theorem recvTrailers_sent (H : Http) (l : List FieldLine) (hl : ∀ f ∈ l, Reg
     (hcap : Holdable l) :
     recvTrailers H (Header.trailer (mapOf l)).wireFields = .ok (mapOf l) := by
   unfold recvTrailers Header.trailer at *
-  have hp : PseudoBack H {} := ⟨by simp, by simp, by simp, by simp, by simp, by simp⟩
+  have hp : PseudoBack H {} := ⟨by simp, by simp, by simp, by simp, by simp, by simp, by simp, by simp, by simp⟩
   rw [tryFrom_wireFields H _ l hp hl hcap]
   simp [Res.bind, Header.intoTrailers, pseudoList, optField]
 
